@@ -35,6 +35,7 @@ mod c15;
 mod c16;
 pub mod c17;
 mod c18;
+mod c19;
 mod c20;
 
 pub struct Opts {
@@ -92,6 +93,7 @@ fn main() {
         "c16" => (c16::gen, c16::exec),
         "c17" => (c17::gen, c17::exec),
         "c18" => (c18::gen, c18::exec),
+        "c19" => (c19::gen, c19::exec),
         "c20" => (c20::gen, c20::exec),
         _ => { eprintln!("unknown property {}", prop); std::process::exit(2); }
     };
